@@ -194,4 +194,5 @@ func TestC11(t *testing.T) {
 		check("ccel-cos-113/base", ccel, &verify.Options{Now: &t4, Getter: gen.FailGetter{}})
 		gen.Class("intel-samples")
 	})
+	c11LongHistories(t)
 }
